@@ -42,9 +42,7 @@ Definition frame_counts (fr : frames) : outcome (N * N * N) :=
   let len := length (f_ids fr) in
   let per (d : cdata) : outcome nat :=
       if (len <? unset_bits (c_valid d))%nat then Panic 402 else Ok (len - unset_bits (c_valid d))%nat in
-  fd <- fold_left (fun acc p => a <- acc ;; l <- per (p_leader p) ;;
-                                f <- (match p_follower p with Some d => per d | None => Ok O end) ;;
-                                Ok (a + l + f)%nat) (f_ports fr) (Ok O) ;;
+  fd <- fold_left (fun acc c => a <- acc ;; l <- per (sl_data c) ;; Ok (a + l)%nat) (f_chars fr) (Ok O) ;;
   Ok (nn len, nn fd, match f_item fr with Some it => nn (length it) | None => 0 end).
 
 Definition gecko_codes_size (c : gecko_t) : outcome N :=
@@ -110,13 +108,12 @@ Definition write_char (v : version) (pre : bool) (d : cdata) (idx : nat) (id : Z
         ++ write_row v (if pre then "Pre" else "Post") r)
   else Ok [].
 
-Definition write_port (v : version) (pre : bool) (p : pdata) (idx : nat) (id : Z) : outcome (list byte) :=
-  a <- write_char v pre (p_leader p) idx id (p_port p) false ;;
-  b <- (match p_follower p with
-        | Some f => ok <- valid_at (c_valid f) idx ;; if ok then write_char v pre f idx id (p_port p) true else Ok []
-        | None => Ok []
-        end) ;;
-  Ok (a ++ b).
+(* PortData::write_pre / write_post, per character slot (the follower's presence is checked twice, as in the code) *)
+Definition write_slot (v : version) (pre : bool) (c : slot) (idx : nat) (id : Z) : outcome (list byte) :=
+  if sl_fol c then
+    ok <- valid_at (c_valid (sl_data c)) idx ;;
+    if ok then write_char v pre (sl_data c) idx id (sl_port c) true else Ok []
+  else write_char v pre (sl_data c) idx id (sl_port c) false.
 
 Fixpoint concat_out (l : list (outcome (list byte))) : outcome (list byte) :=
   match l with
@@ -131,7 +128,7 @@ Definition write_frame (v : version) (fr : frames) (idx : nat) (id : Z) : outcom
           | None => Panic 408
           end
         else Ok []) ;;
-  pres <- concat_out (map (fun p => write_port v true p idx id) (f_ports fr)) ;;
+  pres <- concat_out (map (fun c => write_slot v true c idx id) (f_chars fr)) ;;
   its <- (if vgte v 3 0 then
             match f_item_off fr, f_item fr with
             | Some offs, Some items =>
@@ -145,7 +142,7 @@ Definition write_frame (v : version) (fr : frames) (idx : nat) (id : Z) : outcom
             | _, _ => Panic 410
             end
           else Ok []) ;;
-  posts <- concat_out (map (fun p => write_port v false p idx id) (f_ports fr)) ;;
+  posts <- concat_out (map (fun c => write_slot v false c idx id) (f_chars fr)) ;;
   e <- (if vgte v 3 0 then
           match f_end fr with
           | Some rows => r <- row_at rows idx ;; Ok (ev Event_FrameEnd ++ i32_bytes id ++ write_row v "End" r)
